@@ -117,6 +117,6 @@ CLAIM = {
     "design_ref": "DESIGN.md section 4 C03",
     "technique": "static: symbolic extraction of bases and scalars of the combined check; coefficient decomposition in the batching weight; guard-set extraction",
     "text": "Decides the structural half of the equivalence: one aligned base/scalar list, whose scalars are exactly opening-relation + r * evaluation-relation, "
-    "with the reference mandatory-point set and verdict = is_zero of that one sum.",
+    "with the reference mandatory-point set and verdict = is_zero of that one sum; batch verification is held to the same base/scalar alignment (C07 rules by reference).",
     "note": "trusted: random-weight argument for combining two relations; reference relations",
 }
